@@ -14,7 +14,7 @@ PID = "C29"
 RULE = (
     "Hypothesis: accepted meta-model (vlib.mmgen: class DAGs, properties of class / abstract-class / list-of-class / "
     "optional type mixed with primitives, plus generated implementation-specific 'X_or_default' methods with their "
-    "snippets on optional primitive/enum properties) -> Python SDK imported -> instance graphs (depth <= 4, lists <= 3). "
+    "snippets on optional primitive/enum properties) -> Python SDK imported -> instance graphs (depth <= 3, lists <= 3). "
     "Oracle = reference traversal over the spec: descend_once() yields exactly the directly nested class instances in "
     "property order (ancestors' properties first) and list order, compared by identity; descend() = pre-order; accept() calls "
     "visit_<concrete class> exactly once with the instance (recording visitor built on AbstractVisitor and on "
@@ -70,7 +70,7 @@ def cases(draw: Any, n_inst: int) -> Dict[str, Any]:
                 f"def {py_m}(self):\n    return self.{py_prop(p.name)} if self.{py_prop(p.name)} is not None else {src}"
             )
             defaults.append((c.name, p.name, val))
-    ig = instgen.InstGen(spec, max_depth=4, max_list=3)
+    ig = instgen.InstGen(spec, max_depth=3, max_list=3)
     # prefer roots that can nest other instances
     roots = [c.name for c in spec.classes if not c.abstract and c.name in ig.rank
              and any(_mentions_class(p.type) for p in spec.all_props(c.name))]
@@ -256,7 +256,7 @@ def _list_kinds(v: Any) -> int:
 
 
 def shard(ctx: runner.Ctx) -> None:
-    n = ctx.n(300, 20_000)
+    n = ctx.n(200, 20_000)
     n_inst = N_INST_QUICK if ctx.quick else N_INST_THOROUGH
 
     def one(case: Dict[str, Any]) -> None:
